@@ -76,9 +76,26 @@ CLAIMED.update({
         ref='DESIGN.md section 5 C12'),
 })
 
+CLAIMED.update({
+    'C13': dict(
+        text='Deductive proof that the literal conversions read digits in base ten and scale by the right power of ten: ParsePercentageRatio / parsePercentageRatio '
+             '(numerator = the digits before and after the point as one base-ten numeral, denominator = 10^(2+number of fractional digits), error exactly when the digits are not a numeral), '
+             'parseRatio / unsafeParseBigInt (both parts base ten), parsePortionSource per alternative; ParsePortionSpecific yields a value in [0,1]; parseVar keeps account, asset and string texts unchanged.',
+        note='The meaning of numerals (numval(s, 10)) and big.Int/big.Rat arithmetic are library contracts (trusted). The round trip value -> String()/MarshalJSON -> parseVar for numbers, monetaries and portions '
+             'is NOT machine-checked (it needs a theory of decimal printing); the variable reader of portions is proved only for range and error typing.',
+        ref='DESIGN.md section 5 C13'),
+    'C14': dict(
+        text='Panic-freedom sweep of the hand-written parser layer for every parse tree the generated recogniser can hand over (nil children after error recovery, error-recovery base contexts, '
+             'every alternative of every rule): every nil dereference, index, slice, type switch default, explicit panic and library precondition in parser.go / range.go is an obligation; '
+             'SyntaxError appends exactly one located error; ShowOnSource and ParseErrorsToString never panic on ranges that lie on the source.',
+        note='Assumption T3 (listed in the trusted base of every run): facts about the ANTLR runtime and the generated recogniser - first children of a rule are never nil, token text shapes follow the lexer rules, '
+             'listener callbacks carry 1-based lines and 0-based columns. Termination of the recogniser, "valid scripts give zero errors" and "invalid ones give at least one" are properties of generated code and are not decided here.',
+        ref='DESIGN.md section 5 C14'),
+})
+
 NOT_APPLICABLE = {}
 
-PENDING = ['C13', 'C14', 'C15', 'C16', 'C17', 'C18', 'C19', 'C20']
+PENDING = ['C15', 'C16', 'C17', 'C18', 'C19', 'C20']
 
 
 def main():
